@@ -150,50 +150,7 @@ func c06(g *Gen) {
 		// (E) lookups BEFORE loading into the same universe: the objects handed out then are the ones
 		// the load completes, and nothing stays a placeholder
 		if i%3 == 0 {
-			pgPrefix = fmt.Sprintf("pre%d/", i)
-			prog2, cls2 := g.genProgram(false, npk, 1+g.R.Intn(2))
-			pgPrefix = ""
-			chk2, err := typeCheck(prog2)
-			if err != nil {
-				panic(err)
-			}
-			in2, _ := chk2.serialise(c01ver, prog2)
-			u2 := types.Universe{}
-			var pre []string
-			held := map[types.Name]*types.Type{}
-			for k := 0; k < 6; k++ {
-				gp := prog2[g.R.Intn(len(prog2))]
-				nm := types.Name{Package: gp.Path, Name: g.Pick([]string{"T0", "T1", "T2", "I0", "I1", "B0", "B1", "D2", "D3", "Nope"})}
-				if g.Chance(0.2) {
-					nm = types.Name{Name: g.Pick([]string{"string", "uint8", "[]string", "*int"})}
-				}
-				if _, dup := held[nm]; dup {
-					continue
-				}
-				held[nm] = u2.Type(nm)
-				pre = append(pre, list(atom(nm.Package), atom(nm.Name)))
-			}
-			if err := c06loadInto(g, i, prog2, &u2); err != nil {
-				panic(err)
-			}
-			var p2 []string
-			for nm, obj := range held {
-				if u2.Type(nm) != obj {
-					p2 = append(p2, "the object handed out for "+nm.String()+" before the load is not the one a lookup returns after it")
-				}
-			}
-			for t := range reachable(u2) {
-				if t.Kind == types.Unknown {
-					for _, cp := range chk2.pkgs {
-						if cp.Path() == t.Name.Package && cp.Scope().Lookup(t.Name.Name) != nil {
-							p2 = append(p2, "unresolved placeholder "+t.Name.String()+" after the load")
-						}
-					}
-				}
-			}
-			sort.Strings(p2)
-			g.Emit("C06.prelookups", list(in2, list(pre...)), dumpUniverse(u2), append(cls2, "lookups-before-load")...)
-			g.Emit("C06.identity!", list(in2, atom(strings.Join(p2, "; "))), boolS(len(p2) == 0), "identity-closure", "lookups-before-load")
+			prelookupCase(g, i, npk, "C06")
 		}
 		g.Emit("C06.identity!", list(in, atom(strings.Join(problems, "; "))), boolS(len(problems) == 0), "identity-closure")
 		pgModule = "ex.test"
@@ -313,5 +270,59 @@ func c20(g *Gen) {
 			oc = append(oc, "positive-"+k)
 		}
 		g.Emit("C20.sound!", list(in, atom(strings.Join(problems, "; "))), boolS(len(problems) == 0), oc...)
+	}
+}
+
+// prelookupCase: names are looked up in an empty universe (placeholders are handed out), then the
+// program is loaded into that universe; the dump must be the model's, the objects handed out before
+// must be the ones lookups return afterwards, and none of them may stay a placeholder.
+func prelookupCase(g *Gen, i int, npk int, prop string) {
+	pgPrefix = fmt.Sprintf("pre%s%d/", strings.ToLower(prop), i)
+	prog2, cls2 := g.genProgram(false, npk, 1+g.R.Intn(2))
+	pgPrefix = ""
+	chk2, err := typeCheck(prog2)
+	if err != nil {
+		panic(err)
+	}
+	in2, _ := chk2.serialise(c01ver, prog2)
+	u2 := types.Universe{}
+	var pre []string
+	held := map[types.Name]*types.Type{}
+	for k := 0; k < 8; k++ {
+		gp := prog2[g.R.Intn(len(prog2))]
+		nm := types.Name{Package: gp.Path, Name: g.Pick([]string{"T0", "T1", "T2", "T3", "I0", "I1", "I2", "B0", "B1", "D2", "D3", "Nope"})}
+		if g.Chance(0.2) {
+			nm = types.Name{Name: g.Pick([]string{"string", "uint8", "[]string", "*int"})}
+		}
+		if _, dup := held[nm]; dup {
+			continue
+		}
+		held[nm] = u2.Type(nm)
+		pre = append(pre, list(atom(nm.Package), atom(nm.Name)))
+	}
+	if err := c06loadInto(g, i, prog2, &u2); err != nil {
+		panic(err)
+	}
+	var p2 []string
+	for nm, obj := range held {
+		if u2.Type(nm) != obj {
+			p2 = append(p2, "the object handed out for "+nm.String()+" before the load is not the one a lookup returns after it")
+		}
+	}
+	for t := range reachable(u2) {
+		if t.Kind == types.Unknown {
+			for _, cp := range chk2.pkgs {
+				if cp.Path() == t.Name.Package && cp.Scope().Lookup(t.Name.Name) != nil {
+					p2 = append(p2, "unresolved placeholder "+t.Name.String()+" after the load")
+				}
+			}
+		}
+	}
+	sort.Strings(p2)
+	g.Emit(prop+".prelookups", list(in2, list(pre...)), dumpUniverse(u2), append(cls2, "lookups-before-load")...)
+	if prop == "C06" {
+		g.Emit("C06.identity!", list(in2, atom(strings.Join(p2, "; "))), boolS(len(p2) == 0), "identity-closure", "lookups-before-load")
+	} else {
+		g.Emit(prop+".placeholders!", list(in2, atom(strings.Join(p2, "; "))), boolS(len(p2) == 0), "lookups-before-load")
 	}
 }
